@@ -28,7 +28,8 @@ EXTRA_TARGETS = ["TopSearch.Model.Parallel", "TopSearch.Gen.HashSites"]
 P = "TopSearch.Props.C14."
 REQUIRED = [P + n for n in ["C14_pool_order", "C14_parallel_merge", "C14_schedule_independent",
                             "C14_failed_skipped", "C14_sites_justified",
-                            "C14_string_set_order_irrelevant", "C14_parallel_is_roundParallel"]]
+                            "C14_string_set_order_irrelevant", "C14_parallel_is_roundParallel",
+                            "C14_bridge_dispatch"]]
 RULE = ("cases = (worker count, delay pattern) runs of the real fork pool / real parallel round compared "
         "with the model fed the observed completion order, and (pipeline, RNG seed, hash seed) interpreter "
         "runs compared by digest; non-trivial = the completion order differs from the task order (or >= 2 "
@@ -85,7 +86,9 @@ class ScriptedNEB:
         time.sleep(self.delays.get(key, 0.0))
         with open(self.log, "a") as f:
             f.write(f"{key[0]} {key[1]}\n")
-        return np.array([1]), np.array([[key[0], key[1]]])
+        cand = np.zeros((1, coords.position.size))
+        cand[0, :2] = key
+        return np.array([1]), cand
 
 
 class ScriptedHEF:
@@ -101,7 +104,13 @@ class ScriptedHEF:
         if o is None:
             return None, None, None, None, None, None, None
         ts, e, mp, ep, mm, em = o
-        return np.array(ts), e, np.array(mp), ep, np.array(mm), em, np.array([1.0, 0.0])
+        d = coords.position.size
+
+        def pad(v):
+            out = np.zeros(d)
+            out[:len(v)] = v
+            return out
+        return pad(ts), e, pad(mp), ep, pad(mm), em, pad([1.0, 0.0])
 
 
 def _logging_sim():
@@ -122,12 +131,47 @@ def _logging_sim():
     return sim
 
 
-def make_network(nmin):
+def make_network(nmin, dim=2):
     from topsearch.data.kinetic_transition_network import KineticTransitionNetwork
     k = KineticTransitionNetwork()
     for i in range(nmin):
-        k.add_minimum(np.array([float(i), 0.0]), float(i) / 8)
+        x = np.zeros(dim)
+        x[0] = float(i)
+        k.add_minimum(x, float(i) / 8)
     return k
+
+
+def heavy_round(ctx: Ctx, workers: int, schedule: str):
+    """A round whose tasks are expensive to hand to the workers (3000-dimensional network: every task
+    carries ~240 kB): the first pair finishes quickly and its transition state joins the two minima of the
+    LAST pair.  Every attempt has to be judged against the network as it was when the round started, so the
+    last pair must still be searched and contribute, however slowly the tasks reach the workers."""
+    from topsearch.data.coordinates import StandardCoordinates
+    from topsearch.sampling.exploration import NetworkSampling
+    dim, nmin = 3000, 10
+    k = make_network(nmin, dim)
+    pairs = [[0, 1], [2, 3], [4, 5], [6, 7], [1, 8], [3, 5], [0, 9]]
+    outcomes, delays = {}, {}
+    for j, (a, b) in enumerate(pairs):
+        key = (float(a), float(b))
+        slow = {"first-quick": 0.0 if j == 0 else 0.25, "all-quick": 0.0, "last-quick": 0.25 if j < 6 else 0.0}[schedule]
+        delays[key] = slow
+        e = 2.0 + j / 16
+        if j == 0:        # descends to minima 0 and 9: connects the last pair's minima
+            outcomes[key] = ([a + 0.25, b + 0.5], e, [0.0, 0.0], 0.0, [9.0, 0.0], 9 / 8)
+        elif j == 6:      # the last pair finds its own transition state and a new minimum
+            outcomes[key] = ([a + 0.25, b + 0.5], e, [9.0, 0.0], 9 / 8, [15.0, 1.0], 3.0)
+        else:
+            outcomes[key] = ([a + 0.25, b + 0.5], e, [float(a), 0.0], a / 8, [float(b), 0.0], b / 8)
+    log = os.path.join(ctx.scratch, f"heavy-{time.time_ns()}.log")
+    open(log, "w").close()
+    coords = StandardCoordinates(ndim=dim, bounds=[(-50.0, 50.0)] * dim)
+    sim = _logging_sim()
+    ns = NetworkSampling(k, coords, None, ScriptedHEF(outcomes), ScriptedNEB(delays, log), sim,
+                         multiprocessing_on=True, n_processes=workers)
+    ns.run_connection_attempts([list(p) for p in pairs])
+    return (k.n_minima, k.n_ts, tuple(sorted((min(int(u), int(v)), max(int(u), int(v))) for u, v in k.G.edges())),
+            tuple(sim.merged))
 
 
 def round_case(ctx: Ctx, rng, workers: int, parallel: bool = True):
@@ -229,6 +273,39 @@ def run_pipe(kind: str, seed: int, hashseed: str) -> str:
     return "ERROR " + (p.stderr.strip().splitlines() or ["no output"])[-1][:200]
 
 
+def group_order_predicate(ctx: Ctx) -> None:
+    from topsearch.data.coordinates import AtomicCoordinates
+    from topsearch.similarity.molecular_similarity import MolecularSimilarity
+    rng = ctx.rng
+    for _ in range(ctx.scale(40, 300)):
+        n = rng.randrange(4, 11)
+        pts = np.array([[rng.uniform(-2, 2) for _ in range(3)] for _ in range(n)])
+        other = np.array([[rng.uniform(-2, 2) for _ in range(3)] for _ in range(n)]).flatten()
+        atoms = list(range(n)); rng.shuffle(atoms)
+        cuts = sorted(rng.sample(range(1, n), rng.randrange(1, min(4, n - 1) + 1)))
+        g1 = [sorted(atoms[a:b]) for a, b in zip([0] + cuts, cuts + [n])]
+        # second structure: same group sizes, membership either identical or exchanged between groups
+        if rng.random() < 0.6:
+            atoms2 = list(range(n)); rng.shuffle(atoms2)
+            g2 = [sorted(atoms2[a:b]) for a, b in zip([0] + cuts, cuts + [n])]
+        else:
+            g2 = [list(g) for g in g1]
+        coords = AtomicCoordinates(['C'] * n, pts.flatten().copy())
+        outs = []
+        for order in (list(range(len(g1))), list(reversed(range(len(g1)))), rng.sample(range(len(g1)), len(g1))):
+            sim = MolecularSimilarity(0.1, 0.05)
+            sim.get_permutable_groups = lambda c1, c2, o=order: ([list(g1[i]) for i in o], [list(g2[i]) for i in o])
+            pc, perm = sim.permutational_alignment(coords, other.copy())
+            outs.append((pc.tobytes(), perm.tobytes()))
+        ctx.stats.case({"pred": "group-order", "n": n, "groups1": g1, "groups2": g2}, g1 != g2)
+        if len(set(outs)) != 1:
+            ctx.fail("alignment-depends-on-group-order", f"permutational_alignment gives different results when the "
+                     f"permutable groups {g1} / {g2} are processed in a different order (the order comes from iterating "
+                     f"a set of strings, i.e. from PYTHONHASHSEED)", {"groups1": g1, "groups2": g2,
+                                                                     "coords1": pts.flatten().tolist(), "coords2": other.tolist()})
+            return
+
+
 def predicates(ctx: Ctx) -> None:
     rng = ctx.rng
     deep = getattr(ctx, "deep_search", False)
@@ -247,6 +324,25 @@ def predicates(ctx: Ctx) -> None:
             ctx.fail("parallel-network-depends-on-schedule", f"the merged network differs between worker counts "
                      f"{[x[0] for x in results]} (completion orders {[x[1] for x in results]})",
                      {"round_seed": s, "workers": [x[0] for x in results]})
+    # (a2) heavy tasks: the result must not depend on how fast tasks reach the workers
+    ref = None
+    for workers, schedule in [(1, "first-quick"), (2, "first-quick"), (4, "first-quick"), (16, "all-quick")] + \
+            ([(3, "last-quick"), (2, "all-quick"), (8, "first-quick")] if (ctx.thorough or deep) else []):
+        d = heavy_round(ctx, workers, schedule)
+        ctx.stats.case({"pred": "heavy-round", "workers": workers, "schedule": schedule, "minima": d[0], "ts": d[1]}, True)
+        want = (11, 7)
+        if (d[0], d[1]) != want or (ref is not None and d != ref):
+            ctx.fail("parallel-network-depends-on-task-dispatch", f"heavy round with {workers} workers, schedule "
+                     f"{schedule}: {d[0]} minima / {d[1]} transition states, records merged {list(d[3])}; merging the "
+                     f"outcomes in list order gives {want[0]} minima / {want[1]} transition states (the last pair [0, 9] "
+                     f"must be searched although the first pair's result joins minima 0 and 9)",
+                     {"heavy": True, "workers": workers, "schedule": schedule})
+            break
+        ref = ref or d
+    # (a3) the order in which permutable groups are processed comes from iterating sets of strings, i.e. from
+    # the hash seed: the assembled permutation and permuted copy must not depend on it — also when the two
+    # structures distribute their atoms differently over the groups
+    group_order_predicate(ctx)
     # (b) bit-identical networks whatever the interpreter's hash seed
     jobs = []
     kinds = [("standard", ctx.seed % 5 + 1), ("atomic", ctx.seed % 3 + 1)]
@@ -277,6 +373,10 @@ def replay(ctx: Ctx, data: dict) -> bool:
         runs = [(hs, run_pipe(data["pipeline"], data["rng_seed"], hs)) for hs in ("0", "1", "2", "random")]
         print("  ", runs)
         return len({o for _, o in runs}) == 1 and not any(o.startswith("ERROR") for _, o in runs)
+    if data.get("heavy"):
+        d = heavy_round(ctx, data["workers"], data["schedule"])
+        print("  ", d[:3])
+        return (d[0], d[1]) == (11, 7)
     if "round_seed" in data:
         import random
         ds = {round_case(ctx, random.Random(data["round_seed"]), w)[3] for w in data["workers"]}
